@@ -350,6 +350,16 @@ class P:
             if self.at("let"):
                 self.i += 1; mut = False
                 if self.at("mut"): mut = True
+                if self.at("("):
+                    # `let (mut a, b) = …`: a component declared `mut` makes the whole destructuring `let mut` (Lean has no finer grain)
+                    j_ = self.i; d_ = 0
+                    while True:
+                        if self.t[j_][:2] == ("p", "("): d_ += 1
+                        if self.t[j_][:2] == ("p", ")"):
+                            d_ -= 1
+                            if d_ == 0: break
+                        if self.t[j_][:2] == ("id", "mut"): mut = True
+                        j_ += 1
                 p = self.pat(); ty = None
                 if self.eat(":"): ty = self.ty()
                 init = None
@@ -1466,7 +1476,19 @@ class Emit:
                 if m == "clear" and not args: return [ind + f"{x} := Rs.clear {x}"]
                 if m == "insert" and len(args) == 2: return [ind + f"{x} := Rs.insert_mut {x} {self.atom(args[0])} {self.atom(args[1])}"]
                 if m == "insert" and len(args) == 1: return [ind + f"{x} := Rs.set_insert {x} {self.atom(args[0])}"]
+                if m == "extend" and len(args) == 1 and recv[1][0] in self.unit.get("vec_vars", []):
+                    # `Vec::extend` appends (no type inference: the spec names the variables that are `Vec`s; the default reading of
+                    # `extend` is `HashSet::extend`)
+                    return [ind + f"{x} := {x} ++ {self.atom(args[0])}"]
                 if m == "extend" and len(args) == 1: return [ind + f"{x} := Rs.extend {x} {self.atom(args[0])}"]
+                if m == "sort_by_key" and len(args) == 1:
+                    # `Vec::sort_by_key` is a STABLE sort; the vocabulary has it for a Boolean key only (false before true) — a key of
+                    # another type does not type-check in the generated file
+                    return [ind + f"{x} := Rs.sort_by_key_bool {x} {self.atom(args[0])}"]
+                if m == "append" and len(args) == 1 and args[0][0] == "path" and len(args[0][1]) == 1:
+                    # `a.append(&mut b)`: b's elements move to the end of a, b is left empty
+                    y = lname(args[0][1][0])
+                    return [ind + f"{x} := {x} ++ {y}", ind + f"{y} := []"]
                 if m == "remove" and len(args) == 1: return [ind + f"{x} := Rs.remove_mut {x} {self.atom(args[0])}"]
                 for key, (ln, it) in self.local_fns.items():
                     if it["name"] == m and it["self"] == "mut" and len(it["params"]) == len(args):
@@ -1562,7 +1584,8 @@ class Emit:
         e = it["expr"]
         L = [f"  let mut {n} := {n}" for n in muts]
         if it.get("unit_body"):
-            L += self.seq(e if e[0] == "block" else ("block", [], e), "  ", "unit"); L.append("  let __res := ()")
+            # `frag_result` (spec): a fragment of statements may answer the final value of one of the variables it declares
+            L += self.seq(e if e[0] == "block" else ("block", [], e), "  ", "unit"); L.append("  let __res := " + lname(self.unit.get("frag_result", {}).get(ln, "()")))
         elif e[0] in ("if", "iflet", "match", "block") and not self.pure_expr(e):
             L.append("  let __res ←"); L += self.branching_or_block(e, "    ", "val")
         else:
@@ -1673,6 +1696,31 @@ def find_fragment_in_tokens(it, sel):
             try: c = sub.expr(nostruct=True)
             except Unsupported: continue
             if mentions(c, name): found.append(c)
+        if kind == "rest" and t[:2] == ("id", "let"):
+            # `rest:NAME` = the statements of the enclosing block from `let [mut] NAME` to the end of that block, as a block
+            k = i + 1
+            if toks[k][:2] == ("id", "mut"): k += 1
+            if toks[k][:2] != ("id", name): continue
+            sub = P([("p", "{", t[2])] + toks[i:], it["fname"]); sub.i = 0
+            try: found.append(sub.block())
+            except Unsupported: continue
+        if kind == "span" and ".." in name and t[0] == "id":
+            # `span:RECV.METHOD..NAME` = the statements from the expression statement `RECV.METHOD(…);` up to and including the next
+            # `let [mut] NAME … ;`, as a block
+            first, last = name.split("..")
+            rv, mt = first.split(".")
+            if not (t[1] == rv and toks[i + 1][:2] == ("p", ".") and toks[i + 2][:2] == ("id", mt)): continue
+            j = i
+            while j < len(toks) - 2 and not (toks[j][:2] == ("id", "let") and (toks[j + 1][:2] == ("id", last) or (toks[j + 1][:2] == ("id", "mut") and toks[j + 2][:2] == ("id", last)))): j += 1
+            depth = 0
+            while j < len(toks) - 1:
+                if toks[j][0] == "p" and toks[j][1] in "([{": depth += 1
+                if toks[j][0] == "p" and toks[j][1] in ")]}": depth -= 1
+                if toks[j][:2] == ("p", ";") and depth == 0: break
+                j += 1
+            sub = P([("p", "{", t[2])] + toks[i:j + 1] + [("p", "}", toks[j][2]), ("eof", "", 0)], it["fname"]); sub.i = 0
+            try: found.append(sub.block())
+            except Unsupported: continue
     if nth is not None: return found[nth - 1] if len(found) >= nth else None
     if kind == "let" or (kind == "forbody" and "@" not in name): return found[0] if len(found) == 1 else None
     if kind == "iflast": return found[-1] if found else None
@@ -1693,6 +1741,21 @@ def find_fragment(body, sel):
             if kind == "ifletbody" and e[:1] == ("iflet",) and len(e) == 5 and mentions(e[2], name): found.append(e[3])
             if kind == "forbody" and e[:1] == ("for",) and len(e) == 4 and e[1] == ("bind", name.split("@")[0]) \
                and ("@" not in name or mentions(e[2], name.split("@")[1])): found.append(e[3])
+            if kind in ("rest", "span") and e[:1] == ("block",) and len(e) == 3 and isinstance(e[1], list):
+                is_let = lambda st, nm: st[:1] == ("let",) and len(st) == 6 and st[1] == ("bind", nm)
+                if kind == "rest":
+                    # `rest:NAME` = the statements of the enclosing block from `let [mut] NAME` to the end of that block, as a block
+                    for k_, st in enumerate(e[1]):
+                        if is_let(st, name): found.append(("block", e[1][k_:], e[2])); break
+                else:
+                    # `span:RECV.METHOD..NAME` = the statements from the expression statement `RECV.METHOD(…);` up to and including the
+                    # next `let [mut] NAME … ;`, as a block
+                    first, last = name.split(".."); rv, mt = first.split(".")
+                    for a_, st in enumerate(e[1]):
+                        if st[:1] == ("expr",) and st[1][:1] == ("mcall",) and st[1][1] == ("path", [rv]) and st[1][2] == mt:
+                            for b_ in range(a_, len(e[1])):
+                                if is_let(e[1][b_], last): found.append(("block", e[1][a_:b_ + 1], None)); break
+                            break
             for x in e: walk(x)
         elif isinstance(e, list):
             for x in e: walk(x)
@@ -1738,7 +1801,7 @@ def translate_unit(unit, repo):
             if key not in its: raise Unsupported(f"{f}: item `{key}` not found")
             e = find_fragment_in_tokens(its[key], sel) if its[key]["kind"] == "error" else find_fragment(its[key]["body"], sel)
             if e is None: raise Unsupported(f"{f}: `{key}`: fragment `{sel}` not found (or not unique)")
-            decls.append(("fragfx", key + " @ " + sel, ln, {"expr": e, "params": params, "rty": rty, "owner": its[key]["owner"], "unit_body": sel.startswith("forbody:") or sel.startswith("iflet:") or sel.startswith("ifletbody:")}, f))
+            decls.append(("fragfx", key + " @ " + sel, ln, {"expr": e, "params": params, "rty": rty, "owner": its[key]["owner"], "unit_body": sel.split(":")[0] in ("forbody", "iflet", "ifletbody", "rest", "span")}, f))
             continue
         if ent[0] == "frag":
             # ("frag", file, fn, selector, lean name, [(param, lean type)], lean result type)
